@@ -37,7 +37,10 @@ type c09Case struct {
 	// InHandler (stop = disconnect, phase connected): Disconnect is called by the application's message handler, i.e. on the
 	// client's reader goroutine, when a message arrives - not from a goroutine of its own
 	InHandler bool `json:"inHandler,omitempty"`
-	PingS     int  `json:"pingS,omitempty"` // WithPingInterval in seconds (never due within a case); CONNECT must not change
+	// DiscCtxDone (stop = disconnect): the context handed to Disconnect has already ended (<-ctx.Done(); cli.Disconnect(ctx),
+	// the usual shutdown path): Disconnect may then return that context's error at once, but the loop must stop all the same
+	DiscCtxDone bool `json:"discCtxDone,omitempty"`
+	PingS       int  `json:"pingS,omitempty"` // WithPingInterval in seconds (never due within a case); CONNECT must not change
 }
 
 func c09ClientID(kind int) string {
@@ -208,6 +211,9 @@ func c09Run(tb rapid.TB, c c09Case) {
 			}()
 			dctx, dc := context.WithTimeout(context.Background(), 30*time.Second)
 			defer dc()
+			if c.DiscCtxDone {
+				dc()
+			}
 			discRet <- cli.Disconnect(dctx)
 		}
 		viaHandler := false
@@ -370,7 +376,12 @@ func c09Run(tb rapid.TB, c c09Case) {
 		case <-time.After(35 * time.Second):
 			fail("Disconnect did not return\n%s", vGoroutineDump())
 		}
-		if !loopDone() {
+		if c.DiscCtxDone {
+			// Disconnect did not have to wait (its context was over): the loop gets the time it needs, but it must end
+			if w := waitFor(loopDone); w == "stuck" {
+				fail("Disconnect was called (with a context that had already ended) but the reconnect loop keeps running\n%s", vGoroutineDump())
+			}
+		} else if !loopDone() {
 			fail("Disconnect returned but the reconnect loop goroutine is still running")
 		}
 	}
@@ -558,14 +569,15 @@ func errorsIs(err, target error) bool {
 
 func c09Gen(rt *rapid.T) c09Case {
 	c := c09Case{
-		BaseUs:    rapid.SampledFrom([]int{1000, 2000, 5000}).Draw(rt, "baseUs"),
-		Clean:     rapid.Bool().Draw(rt, "clean"),
-		KeepAlive: rapid.SampledFrom([]int{0, 0, 60, 65535}).Draw(rt, "ka"),
-		Will:      rapid.Bool().Draw(rt, "will"),
-		User:      rapid.Bool().Draw(rt, "user"),
-		IDKind:    rapid.SampledFrom([]int{0, 0, 1, 2, 3}).Draw(rt, "idKind"),
-		PingS:     rapid.SampledFrom([]int{0, 0, 2, 100}).Draw(rt, "pingS"),
-		InHandler: rapid.Bool().Draw(rt, "inHandler"),
+		BaseUs:      rapid.SampledFrom([]int{1000, 2000, 5000}).Draw(rt, "baseUs"),
+		Clean:       rapid.Bool().Draw(rt, "clean"),
+		KeepAlive:   rapid.SampledFrom([]int{0, 0, 60, 65535}).Draw(rt, "ka"),
+		Will:        rapid.Bool().Draw(rt, "will"),
+		User:        rapid.Bool().Draw(rt, "user"),
+		IDKind:      rapid.SampledFrom([]int{0, 0, 1, 2, 3}).Draw(rt, "idKind"),
+		PingS:       rapid.SampledFrom([]int{0, 0, 2, 100}).Draw(rt, "pingS"),
+		InHandler:   rapid.Bool().Draw(rt, "inHandler"),
+		DiscCtxDone: rapid.IntRange(0, 2).Draw(rt, "discCtxDone") == 0,
 	}
 	c.MaxUs = c.BaseUs * rapid.SampledFrom([]int{1, 2, 4, 8}).Draw(rt, "maxMul")
 	if rapid.IntRange(0, 9).Draw(rt, "maxBelowBase") == 0 {
